@@ -323,11 +323,24 @@ def check_config(ctx, fb):
             nguard += 1
             if not (at[0] == "b" and at[1] == eff):
                 incons = "a success path is conditioned on %s while sled::Config::temporary receives %s" % (sh(at[1], 120), sh(eff, 120))
+    def exists_true(at, v):
+        # `path.exists()` is true: tested directly, or as `path.as_ref().filter(|p| p.exists())` being Some
+        if at[0] == "b" and at[1][0] == "call" and at[1][1].endswith("::exists") and v is True:
+            return True
+        if at[0] == "ok" and v is True and isinstance(at[1], tuple) and at[1][0] == "call" and at[1][1].endswith("Option::<T>::filter") and len(at[1][2]) == 2:
+            cps = closure_paths(fb, at[1][2][1]) or []
+            return bool(cps) and all(isinstance(val, tuple) and val and val[0] == "call" and val[1].endswith("::exists") for _, val in cps)
+        return False
     errs = [p for p in paths if p.kind == "return" and known_ok(eng.value_of(p.store, p.ret)) is False
-            and any(at[0] == "b" and at[1][0] == "call" and at[1][1].endswith("::exists") and v is True for at, v in p.conds())]
+            and any(exists_true(at, v) for at, v in p.conds())]
     ctx.check(incons is None and nguard >= 1 and len(errs) >= 1, "R16-3", "from_str temporary guard", "the existing-location guard tests the effective `temporary` value (the one the builder receives)",
               incons or "no guard on the temporary option found (%d conditions, %d rejecting paths): an existing tree can be opened delete-on-drop" % (nguard, len(errs)), loc(it))
     want = {"HighThroughput": {"HighThroughput"}, "LowSpace": {"LowSpace"}, None: {"HighThroughput"}}
+    # compared as total functions of the key's string: an explicit arm that maps a name to what the default arm gives anyway may be
+    # present or absent
+    if None in modes:
+        modes = {k: v for k, v in modes.items() if k is None or v != modes[None]}
+        want = {k: v for k, v in want.items() if k is None or v != want[None]}
     ctx.check(modes == want, "R16-3", "from_str mode table", "\"HighThroughput\"/\"LowSpace\" map to the same-named variants, default HighThroughput",
               "mode strings map as %s, specification %s" % (modes, want), loc(it))
     # Default
